@@ -840,7 +840,7 @@ Proof.
     { rewrite <- Eb. rewrite map_map. apply map_ext_in. intros y Hy. rewrite updn_other; auto.
       intros E. apply NoDup_remove_2 in Hids. apply Hids. apply in_or_app. right. rewrite En', <- E. now apply in_map. }
     rewrite Hfa, Hfb. f_equal. f_equal.
-    unfold updn. rewrite En', Z.eqb_refl. unfold slot_of. simpl. rewrite En'.
+    destruct n as [nid nk nn np]. simpl in En'. unfold updn, slot_of. simpl. rewrite En', Z.eqb_refl. simpl.
     f_equal. rewrite <- Hname, <- En. reflexivity.
   - rewrite mget_mset_neq; auto. rewrite (O k'). unfold file_upd. rewrite map_map. apply map_ext_in.
     intros y Hy. apply filter_In in Hy. destruct Hy as [Hy Hk']. apply seqb_eq in Hk'.
@@ -1107,12 +1107,12 @@ Proof. vm_compute. repeat split; reflexivity. Qed.
    satisfies every hypothesis of the theorems, and its session view is what one expects *)
 Definition sample_history : list op :=
   [OWrite K_SOL "A" 1; OWrite K_DISC "D" 9; OWrite K_SOL "B" 2; OWrite K_SOL "C" 3; OWrite K_SOL "C" 30;
-   ODelete "A"; OReopen; OWrite K_SOL "E" 5; ODelete "D"; ODelete "nosuch"].
+   ODelete "A"; OReopen; OWrite K_SOL "E" 5; ODelete "D"; ODelete "nosuch"; OUpdate K_SOL "B" 20].
 Lemma sample_history_ok :
   ops_ok (fun _ => true) (fun _ => true) sample_history /\ writes_ok [] sample_history /\
   hist_order_safe all_shift empty_parent sample_history = true /\
-  view_session (fst (run all_shift empty_parent sample_history)) K_SOL = [("B", 2); ("C", 30); ("E", 5)] /\
-  snd (run all_shift empty_parent sample_history) = [0; 0; 0; 0; 0; 0; 0; 0; 0; 1].
+  view_session (fst (run all_shift empty_parent sample_history)) K_SOL = [("B", 20); ("C", 30); ("E", 5)] /\
+  snd (run all_shift empty_parent sample_history) = [0; 0; 0; 0; 0; 0; 0; 0; 0; 1; 0].
 Proof.
   split; [repeat constructor|]. vm_compute. repeat split; reflexivity.
 Qed.
